@@ -238,7 +238,8 @@ Definition write_advanced (sp : spec) (st : wst) (t : tag) (o : wopts) : wst * w
   | (st1, WPanic) => (st1, WPanic)
   end.
 
-(* flush(): end every open master, innermost first, then hand everything over *)
+(* flush(): end every open master, innermost first, then hand everything over; when closing one of them fails (its size does
+   not fit the width it was started with) the working buffer and the open masters are restored *)
 Fixpoint end_all (fuel : nat) (st : wst) : wst * wres :=
   match fuel with
   | O => (st, WOk)
